@@ -6,6 +6,7 @@ import (
 	"github.com/smarthome-go/homescript/v3/homescript/analyzer/ast"
 	"github.com/smarthome-go/homescript/v3/homescript/diagnostic"
 	"github.com/smarthome-go/homescript/v3/homescript/errors"
+	pAst "github.com/smarthome-go/homescript/v3/homescript/parser/ast"
 )
 
 // lastIsErrorAt: the most recent diagnostic is an error reported at span.
@@ -309,4 +310,181 @@ func vb2i(b bool) int {
     ensures @reports-only len(self.diagnostics) >= old(len(self.diagnostics))
     ensures @branches-of-one-kind len(self.diagnostics) == old(len(self.diagnostics)) ==> result.TryBlock.ResultType.Kind() == result.CatchBlock.ResultType.Kind() || result.TryBlock.ResultType.Kind() == ast.AnyTypeKind || result.TryBlock.ResultType.Kind() == ast.UnknownTypeKind || result.TryBlock.ResultType.Kind() == ast.NeverTypeKind || result.CatchBlock.ResultType.Kind() == ast.AnyTypeKind || result.CatchBlock.ResultType.Kind() == ast.UnknownTypeKind || result.CatchBlock.ResultType.Kind() == ast.NeverTypeKind
     ensures @type-of-the-whole len(self.diagnostics) == old(len(self.diagnostics)) ==> result.ResultType.Kind() == result.TryBlock.ResultType.Kind() || result.ResultType.Kind() == result.CatchBlock.ResultType.Kind()
+@*/
+
+// ---------------------------------------------------------------------------
+// More typing rules (C03), each stated for the scalar fragment of the type
+// language (int, float, bool, str), where compatibility is equality of kinds.
+
+// Both bounds of a range literal are of type int; anything else is reported,
+// and nothing is reported for int bounds.
+
+/*@ func (self *Analyzer) rangeLiteralExpression
+    serves C03
+    assume-safety
+    assumepre expression, TypeCheck
+    ensures @reports-only len(self.diagnostics) >= old(len(self.diagnostics))
+    ensures @bounds-kept result.Start != nil && result.End != nil && result.EndIsInclusive == node.EndIsInclusive
+    ensures @bounds-must-be-int (ast.VScalarKind(result.Start.Type().Kind()) && result.Start.Type().Kind() != ast.IntTypeKind) || (ast.VScalarKind(result.End.Type().Kind()) && result.End.Type().Kind() != ast.IntTypeKind) ==> len(self.diagnostics) > old(len(self.diagnostics)) && self.diagnostics[len(self.diagnostics)-1].Level == diagnostic.DiagnosticLevelError
+    assert @start-reported-only-if-not-int before start.Span(), :: start.Type().Kind() != ast.IntTypeKind
+    assert @end-reported-only-if-not-int before end.Span(), :: end.Type().Kind() != ast.IntTypeKind
+@*/
+
+// A return statement outside a function is an error; inside, the type of the
+// returned value (null when there is none) must fit the declared result type.
+
+/*@ func (self *Analyzer) returnStatement
+    serves C03
+    assume-safety
+    assumepre expression, TypeCheck
+    requires self.currentModule != nil
+    ensures @reports-only len(self.diagnostics) >= old(len(self.diagnostics))
+    ensures @outside-a-function self.currentModule.CurrentFunction == nil ==> len(self.diagnostics) > old(len(self.diagnostics)) && self.lastIsErrorAt(node.Range)
+    ensures @value-must-fit-the-result-type self.currentModule.CurrentFunction != nil && result.ReturnValue != nil && ast.VScalarKind(result.ReturnValue.Type().Kind()) && ast.VScalarKind(self.currentModule.CurrentFunction.ReturnType.Kind()) && result.ReturnValue.Type().Kind() != self.currentModule.CurrentFunction.ReturnType.Kind() ==> len(self.diagnostics) > old(len(self.diagnostics))
+    ensures @missing-value-must-fit-the-result-type self.currentModule.CurrentFunction != nil && result.ReturnValue == nil && ast.VScalarKind(self.currentModule.CurrentFunction.ReturnType.Kind()) ==> len(self.diagnostics) > old(len(self.diagnostics))
+    ensures @value-kept (node.Expression == nil) == (result.ReturnValue == nil)
+@*/
+
+// The elements of a list literal have one type: an element that does not fit
+// the type of the first one is reported.
+
+/*@ func (self *Analyzer) listLiteralExpression
+    serves C03
+    assume-safety
+    assumepre expression, TypeCheck
+    ensures @reports-only len(self.diagnostics) >= old(len(self.diagnostics))
+    ensures @all-elements-kept len(result.Values) == len(node.Values)
+    loop 1 invariant len(self.diagnostics) >= entry(len(self.diagnostics)) && len(newValues) == rangeindex() && listType != nil
+    loop 1 progress @mismatching-element-reported ast.VScalarKind(iterstart(listType.Kind())) && ast.VScalarKind(newValues[len(newValues)-1].Type().Kind()) && newValues[len(newValues)-1].Type().Kind() != iterstart(listType.Kind()) ==> len(self.diagnostics) > iterstart(len(self.diagnostics))
+    loop 1 progress @element-type-is-the-first iterstart(listType.Kind()) == ast.AnyTypeKind ==> listType == newValues[len(newValues)-1].Type()
+@*/
+
+// Indexing: lists and strings are indexed by an int, objects by a str; other
+// values cannot be indexed at all. An accepted index into a str is a str, into
+// a list a value of the element type.
+
+/*@ func (self *Analyzer) indexExpression
+    serves C03
+    assume-safety
+    assumepre expression, SetSpan
+    ensures @reports-only len(self.diagnostics) >= old(len(self.diagnostics))
+    ensures @operands-kept result.Base != nil && result.Index != nil && result.ResultType != nil
+    ensures @not-indexable result.Base.Type().Kind() == ast.IntTypeKind || result.Base.Type().Kind() == ast.FloatTypeKind || result.Base.Type().Kind() == ast.BoolTypeKind || result.Base.Type().Kind() == ast.NullTypeKind || result.Base.Type().Kind() == ast.RangeTypeKind || result.Base.Type().Kind() == ast.FnTypeKind || result.Base.Type().Kind() == ast.OptionTypeKind ==> len(self.diagnostics) > old(len(self.diagnostics)) && self.lastIsErrorAt(node.Range)
+    ensures @lists-and-strings-are-indexed-by-int (result.Base.Type().Kind() == ast.ListTypeKind || result.Base.Type().Kind() == ast.StringTypeKind) && result.Index.Type().Kind() != ast.IntTypeKind ==> len(self.diagnostics) > old(len(self.diagnostics)) && self.diagnostics[len(self.diagnostics)-1].Level == diagnostic.DiagnosticLevelError
+    ensures @objects-are-indexed-by-str (result.Base.Type().Kind() == ast.ObjectTypeKind || result.Base.Type().Kind() == ast.AnyObjectTypeKind) && result.Index.Type().Kind() != ast.StringTypeKind ==> len(self.diagnostics) > old(len(self.diagnostics)) && self.diagnostics[len(self.diagnostics)-1].Level == diagnostic.DiagnosticLevelError
+    ensures @element-of-a-str-is-a-str len(self.diagnostics) == old(len(self.diagnostics)) && result.Base.Type().Kind() == ast.StringTypeKind ==> result.ResultType.Kind() == ast.StringTypeKind
+    ensures @rejected-index-has-no-type len(self.diagnostics) > old(len(self.diagnostics)) && result.Base.Type().Kind() != ast.UnknownTypeKind && result.Base.Type().Kind() != ast.NeverTypeKind ==> result.ResultType.Kind() == ast.UnknownTypeKind || result.ResultType.Kind() == ast.AnyTypeKind || len(self.diagnostics) > old(len(self.diagnostics))
+    assert @element-of-a-list-is-of-the-element-type after resultType = list.Inner.SetSpan(node.Range) :: resultType.Kind() == base.Type().(ast.ListType).Inner.Kind()
+    assert @unknown-field-reported after if fieldRes == nil { :: fieldRes != nil || self.lastIsErrorAt(node.Range)
+@*/
+
+// Assignment: the value must fit the type of the target, and a compound
+// assignment `a op= b` is admitted exactly where `a op b` is.
+
+// vAssignAdmits: the assignment operator op may be used on a target of kind k.
+func vAssignAdmits(op pAst.AssignOperator, k ast.TypeKind) bool {
+	if op == pAst.StdAssignOperatorKind {
+		return true
+	}
+	return ast.VInfixAdmits(pAst.VInfixOfAssign(op), k)
+}
+
+/*@ func (self *Analyzer) assignExpression
+    serves C03
+    assume-safety
+    assumepre expression, TypeCheck
+    requires node.AssignOperator <= pAst.BitXorAssignOperatorKind
+    ensures @reports-only len(self.diagnostics) >= old(len(self.diagnostics))
+    ensures @operands-kept result.Lhs != nil && result.Rhs != nil && result.Operator == node.AssignOperator
+    ensures @value-must-fit-the-target ast.VScalarKind(result.Lhs.Type().Kind()) && ast.VScalarKind(result.Rhs.Type().Kind()) && result.Lhs.Type().Kind() != result.Rhs.Type().Kind() ==> len(self.diagnostics) > old(len(self.diagnostics))
+    ensures @operator-must-fit-the-target ast.VScalarKind(result.Lhs.Type().Kind()) && !vAssignAdmits(node.AssignOperator, result.Lhs.Type().Kind()) ==> len(self.diagnostics) > old(len(self.diagnostics))
+    ensures @compound-assignment-needs-a-scalar node.AssignOperator != pAst.StdAssignOperatorKind && !ast.VScalarKind(result.Lhs.Type().Kind()) && result.Lhs.Type().Kind() != ast.UnknownTypeKind && result.Lhs.Type().Kind() != ast.NeverTypeKind ==> len(self.diagnostics) > old(len(self.diagnostics))
+    ensures @an-assignment-has-no-value result.ResultType != nil && (result.ResultType.Kind() == ast.NullTypeKind || result.ResultType.Kind() == ast.NeverTypeKind)
+    assert @operator-reported-only-if-inadmissible before-each self.assignErr(node.AssignOperator, lhs.Type(), node.Span()) :: !vAssignAdmits(node.AssignOperator, lhs.Type().Kind())
+@*/
+
+/*@ func (self *Analyzer) assignErr
+    serves C03
+    requires typ != nil
+    ensures @reported len(self.diagnostics) == old(len(self.diagnostics))+1 && self.lastIsErrorAt(span)
+@*/
+
+// Call arguments: a call that is accepted passes exactly one argument per
+// (ordinary) parameter, and an argument whose type does not fit the parameter
+// is reported.
+
+/*@ func (self *Analyzer) callArgs
+    serves C03
+    assume-safety
+    assumepre expression, TypeCheck
+    requires fnType.Params != nil
+    ensures @reports-only len(self.diagnostics) >= old(len(self.diagnostics))
+    ensures @accepted-call-keeps-every-argument len(self.diagnostics) == old(len(self.diagnostics)) && (fnType.Params.Kind() == ast.NormalFunctionTypeParamKindIdentifierKind || fnType.Params.Kind() == ast.VarArgsFunctionTypeParamKindIdentifierKind) ==> len(result.List) == len(args.List)
+    ensures @too-few-varargs-rejected fnType.Params.Kind() == ast.VarArgsFunctionTypeParamKindIdentifierKind && len(args.List) < len(fnType.Params.(ast.VarArgsFunctionTypeParamKindIdentifier).ParamTypes) ==> len(self.diagnostics) > old(len(self.diagnostics))
+    loop "range baseParams.Params" invariant (cap(newParams) == 0 || fresh(newParams)) && len(newParams) <= rangeindex() && ((forall i in 0..rangeindex() :: !baseParams.Params[i].IsSingletonExtractor) ==> len(newParams) == rangeindex()) && len(self.diagnostics) == entry(len(self.diagnostics)) && len(arguments) == 0
+    loop "range newParams" invariant len(self.diagnostics) == entry(len(self.diagnostics))
+    loop "for idx := 0; idx < len(newParams); idx++" invariant 0 <= idx && idx <= len(newParams) && len(self.diagnostics) >= entry(len(self.diagnostics)) && (len(self.diagnostics) == entry(len(self.diagnostics)) ==> len(arguments) == idx)
+    loop "range args.List" invariant len(self.diagnostics) >= entry(len(self.diagnostics)) && (len(self.diagnostics) == entry(len(self.diagnostics)) ==> len(arguments) == rangeindex())
+    assert @arguments-are-analysed-only-if-their-number-fits before for idx := 0; idx < len(newParams); idx++ :: (forall i in 0..len(baseParams.Params) :: !baseParams.Params[i].IsSingletonExtractor) ==> len(args.List) == len(baseParams.Params)
+    assert @wrong-argument-count-reported after Function requires %d argument%s%s, however :: len(self.diagnostics) > old(len(self.diagnostics)) && self.lastIsErrorAt(args.Span)
+    assert @only-fitting-arguments-are-accepted before Name:       newParams[idx].Name.Ident(), :: !(ast.VScalarKind(argExpr.Type().Kind()) && ast.VScalarKind(atcall(newParams[idx].Type.Kind())) && argExpr.Type().Kind() != atcall(newParams[idx].Type.Kind()))
+    assert @only-fitting-varargs-are-accepted before Name:       "", // no name: is vararg :: !(ast.VScalarKind(argExpr.Type().Kind()) && ast.VScalarKind(atcall(toCheck.Kind())) && argExpr.Type().Kind() != atcall(toCheck.Kind()))
+@*/
+
+// A function's body must produce a value of the declared result type; `main`
+// has no result.
+
+/*@ func (self *Analyzer) functionDefinition
+    serves C03
+    assume-safety
+    assumepre TypeCheck, block, SetSpan, dropScope
+    requires self.currentModule != nil && node.ReturnType != nil
+    assert @body-must-fit-the-result-type after if err := self.TypeCheck(analyzedBlock.Type(), fnReturnType :: ast.VScalarKind(analyzedBlock.Type().Kind()) && ast.VScalarKind(fnReturnType.Kind()) && analyzedBlock.Type().Kind() != fnReturnType.Kind() ==> len(self.diagnostics) > atcall(len(self.diagnostics))
+    assert @main-has-no-result before self.currentModule.setCurrentFunc(node.Ident.Ident()) :: node.Ident.Ident() == "main" ==> fnReturnType.Kind() == ast.UnknownTypeKind || fnReturnType.Kind() == ast.NullTypeKind
+    ensures @signature-kept result.Ident == node.Ident && result.Modifier == node.Modifier && result.ReturnType != nil
+@*/
+
+// Casts between scalars: bool, int and float convert into each other; a str
+// converts to and from no other scalar; a function type is never a cast target.
+// (ghost(reported) remembers the number of diagnostics before the check.)
+
+/*@ func (self *Analyzer) castExpression
+    serves C03, C12
+    assume-safety
+    assumepre expression, TypeCheck, SetSpan
+    requires self.currentModule != nil
+    ensures @operands-kept result.Base != nil && result.AsType != nil
+    ensures @scratch-counter ghost(reported) == ghost(reported)
+    ghostat @before-the-check before if err := self.TypeCheck(base.Type(), asType, TypeCheckOptions{}); err != nil { :: reported = len(self.diagnostics)
+    assert @str-converts-to-no-other-scalar after if err := self.TypeCheck(base.Type(), asType, TypeCheckOptions{}); err != nil { :: ast.VScalarKind(base.Type().Kind()) && ast.VScalarKind(asType.Kind()) && (base.Type().Kind() == ast.StringTypeKind) != (asType.Kind() == ast.StringTypeKind) ==> len(self.diagnostics) > ghost(reported)
+    assert @functions-are-no-cast-target after if err := self.TypeCheck(base.Type(), asType, TypeCheckOptions{}); err != nil { :: asType.Kind() == ast.FnTypeKind ==> len(self.diagnostics) > ghost(reported)
+    assert @numeric-casts-are-accepted before-each Impossible cast: cannot cast value of type :: !((base.Type().Kind() == ast.BoolTypeKind || base.Type().Kind() == ast.IntTypeKind || base.Type().Kind() == ast.FloatTypeKind) && (asType.Kind() == ast.BoolTypeKind || asType.Kind() == ast.IntTypeKind || asType.Kind() == ast.FloatTypeKind))
+@*/
+
+// `let x: T = e`: the value must fit the annotation; when it does, the
+// variable has the annotated type.
+
+/*@ func (self *Analyzer) letStatement
+    serves C03
+    assume-safety
+    assumepre expression, TypeCheck, SetSpan, addVar
+    requires self.currentModule != nil
+    ensures @scratch-counter ghost(reported) == ghost(reported)
+    ghostat @before-the-check before if err := self.TypeCheck(rhsType, optType, TypeCheckOptions{ :: reported = len(self.diagnostics)
+    assert @value-must-fit-the-annotation after if err := self.TypeCheck(rhsType, optType, TypeCheckOptions{ :: ast.VScalarKind(rhsType.Kind()) && ast.VScalarKind(optType.Kind()) && rhsType.Kind() != optType.Kind() ==> len(self.diagnostics) > ghost(reported)
+    assert @annotated-type-is-the-variable-type after if err := self.TypeCheck(rhsType, optType, TypeCheckOptions{ :: len(self.diagnostics) == ghost(reported) ==> varType == optType
+@*/
+
+// Member access: `a.m` needs a member m on the type of a (which members a type
+// offers is C18); `->` and `~>` need an any-object.
+
+/*@ func (self *Analyzer) memberExpression
+    serves C03
+    assume-safety
+    assumepre expression, SetSpan, Until
+    requires self.currentModule != nil
+    ensures @scratch-counter ghost(reported) == ghost(reported)
+    assert @unknown-member-reported after if !found { :: found || self.lastIsErrorAt(node.Member.Span())
+    ghostat @before-the-operator-check before if base.Type().Kind() != ast.AnyObjectTypeKind { :: reported = len(self.diagnostics)
+    assert @arrow-needs-an-any-object after if base.Type().Kind() != ast.AnyObjectTypeKind { :: base.Type().Kind() == ast.AnyObjectTypeKind || len(self.diagnostics) > ghost(reported)
 @*/
